@@ -501,7 +501,11 @@ def c04(obs, act, viols, probes):
       viols.append(_v('abort_before_final_teardown_but_not_ABORTED', outcome=act.outcome, mode=mode,
                       sigint_site=site))
     elif r0 is not None and fin_enter is not None and r0 < fin_enter and act.outcome == 'PASS':
-      viols.append(_v('PASS_although_abort_returned_before_finalization', mode=mode))
+      # the executor tests the abort flag once more after plug tearDown: an abort that had
+      # *returned* while plugs were still being torn down must be seen by that test
+      tdp_leave = first_seq(log, 'leave', lambda e: e[4] == 'tear_down_plugs' and (td_enter is None or e[0] > td_enter))
+      viols.append(_v('PASS_although_abort_returned_before_finalization', mode=mode,
+                      abort_returned_before_plug_teardown_finished=bool(tdp_leave is not None and r0 < tdp_leave)))
   # (v) callbacks exactly once each (also when KeyboardInterrupt is re-raised)
   ncb = len(spec['callbacks'])
   cbs = [e[4] for e in log if e[3] == 'callback']
@@ -552,6 +556,11 @@ def c08(obs, act, viols, probes):
   log = obs.log
   spec = obs.spec
   if obs.failed in ('deadlock', 'hang'):
+    if obs.sim.sigint_sites and ':SELF-DEADLOCK' in (obs.failed_info or '').split('|')[0]:
+      # the main thread deadlocked against itself inside its SIGINT handler: that is C04's
+      # (listed) finding, not a statement about plugs
+      probes['sigint_self_deadlock_left_to_C04'] = 1
+      return
     viols.append(_v('executor_stuck_' + obs.failed, info=(obs.failed_info or '')[:300],
                     plug_cfg=spec['plug_cfg']))
     return
